@@ -480,14 +480,14 @@ func TestHistories(t *testing.T) {
 	ev.Check(t, "histories", 1500, 30000, func(rt *rapid.T) {
 		c := Case{Concurrent: rapid.Bool().Draw(rt, "concurrent")}
 		for i := 0; i < rapid.IntRange(1, 3).Draw(rt, "nSteps"); i++ {
-			st := StepSpec{ID: fmt.Sprintf("step%d", i), Input: scopeGen(rt, "input", true), WithSignals: rapid.Bool().Draw(rt, "withSignals")}
+			st := StepSpec{ID: []string{"st", "st1", "st10"}[i%3], Input: scopeGen(rt, "input", true), WithSignals: rapid.Bool().Draw(rt, "withSignals")}
 			st.Initializer = st.WithSignals && rapid.IntRange(0, 3).Draw(rt, "initializer") != 0
 			for j := 0; j < rapid.IntRange(1, 3).Draw(rt, "nOutputs"); j++ {
 				st.Outputs = append(st.Outputs, OutputSpec{ID: []string{"success", "error", "other"}[j], Schema: scopeGen(rt, "output", false)})
 			}
 			if st.WithSignals {
 				for j := 0; j < rapid.IntRange(0, 2).Draw(rt, "nSignals"); j++ {
-					st.Signals = append(st.Signals, SignalSpec{ID: fmt.Sprintf("sig%d", j), Data: scopeGen(rt, "sigdata", true)})
+					st.Signals = append(st.Signals, SignalSpec{ID: []string{"sig", "sig1", "sig10"}[j%3], Data: scopeGen(rt, "sigdata", true)})
 				}
 			}
 			c.Steps = append(c.Steps, st)
@@ -498,7 +498,7 @@ func TestHistories(t *testing.T) {
 		for i := 0; i < rapid.IntRange(1, 10).Draw(rt, "nOps"); i++ {
 			marker++
 			st := rapid.SampledFrom(c.Steps).Draw(rt, "opStep")
-			op := Op{Run: rapid.SampledFrom([]string{"r0", "r1", "r2"}).Draw(rt, "run"), Step: st.ID}
+			op := Op{Run: rapid.SampledFrom([]string{"r", "r1", "r10"}).Draw(rt, "run"), Step: st.ID}
 			if rapid.IntRange(0, 7).Draw(rt, "unknownStep") == 0 {
 				op.Step = "no-such-step"
 				negative = true
